@@ -108,7 +108,7 @@ def main():
                          "    assert np.allclose(got, want, rtol=1e-7, atol=1e-9 * max(1.0, np.max(np.abs(want)))), (rcond, cutoff)\n", "SVD.lstsq")
                 break
     rac.section("one-step", "consistent linear problems with condition number <= 100, wide limits, unit and non-unit knob weights, "
-                "target weights: after ONE Jacobian step the knobs are at the solution (1e-5 relative: forward differences) and solve() "
+                "target weights, every third problem with a knob starting exactly ON one of its limits: after ONE Jacobian step the knobs are at the solution (1e-5 relative: forward differences) and solve() "
                 "succeeds, with and without Broyden", "120 quick / 1500 thorough", exhaustive=False)
     for n_ in range(120 if quick else 1500):
         if rac.out_of_time(0.6):
@@ -126,6 +126,18 @@ def main():
         prob = dict(fam="linear", A=A.tolist(), c=c.tolist(), k0=k0.tolist(), val=(A @ sol + c).tolist(), tol=[1e-6] * nk,
                     tw=[rac.rng.choice([None, 2.0, 0.5]) for _ in range(nk)], lim=[rac.rng.choice([None, [-50.0, 50.0], [-50, 50], [-7, 9]]) for _ in range(nk)],     # (limits given as floats or as plain integers)
                     w=[rac.rng.choice([None, 2.0, 0.5, 10.0, 4.0]) for _ in range(nk)], ms=[None] * nk, step=1e-7, kact=[True] * nk, tact=[True] * nk)
+        if n_ % 3 == 2:
+            # one knob STARTS exactly on its upper (or lower) limit, the solution well inside: the finite-difference point beyond the limit is
+            # the solver's own business, the step must still be the Newton step
+            ib = rac.rng.randrange(nk)
+            if rac.rng.random() < 0.7:
+                up = float(sol[ib] + rac.rng.uniform(0.2, 1.5))
+                prob["k0"][ib] = up
+                prob["lim"][ib] = [-50.0, up]
+            else:
+                lo = float(sol[ib] - rac.rng.uniform(0.2, 1.5))
+                prob["k0"][ib] = lo
+                prob["lim"][ib] = [lo, 50.0]
         for broyden in (False, True):
             scr = PRELUDE + DEADLINE_SRC + G.SRC + SRC + f"prob = {prob!r}\nopt, d, act = build(prob)\nopt.step(1, broyden={broyden})\nkn = np.array(knobs_of(d, prob)); sol = np.array({sol.tolist()!r})\n" \
                 "print(kn, sol)\nassert np.allclose(kn, sol, rtol=1e-5, atol=1e-5), (kn, sol)\nopt.solve()\n"
